@@ -55,8 +55,8 @@ func runC15(c *Ctx) {
 	c.floor("C15.1", "os.Rename publish sites in internal/llmsetup", len(pubs), 1)
 
 	phaseHelpers := map[*ssa.Function]bool{} // first/last-phase helpers of a publishing function: their parameters are read at the call site
-	stepHelpers := map[*ssa.Function]int{} // helper -> index of the parameter that is the temporary file
-	var tempNames []ssa.Value              // resolved src values (temp file names)
+	stepHelpers := map[*ssa.Function]int{}   // helper -> index of the parameter that is the temporary file
+	var tempNames []ssa.Value                // resolved src values (temp file names)
 	var targetDirs []ssa.Value
 	var tempFiles []ssa.Value
 
@@ -651,8 +651,17 @@ func c15Propagation(c *Ctx, fns []*ssa.Function, _ int) {
 func walkCallbackIn(cs callSite, targets map[*ssa.Function]bool) bool {
 	for _, a := range cs.common.Args {
 		if mc, ok := resolve(a).(*ssa.MakeClosure); ok {
-			if targets[mc.Fn.(*ssa.Function)] {
+			f := mc.Fn.(*ssa.Function)
+			if targets[f] {
 				return true
+			}
+			// a method value (copier.visit): the callback is the method behind the bound wrapper
+			if strings.HasPrefix(f.Synthetic, "bound method wrapper") {
+				if m, ok := f.Object().(*types.Func); ok {
+					if mf := f.Prog.FuncValue(m); mf != nil && targets[mf] {
+						return true
+					}
+				}
 			}
 		}
 	}
